@@ -1,6 +1,7 @@
 package checks
 
 import (
+	"bytes"
 	"fmt"
 	"os"
 	"runtime"
@@ -471,6 +472,13 @@ func c14BucketSafe(n int) string {
 }
 
 // c19Recover runs Recover on the image and evaluates the oracles; vers == nil means part A (exact).
+// inRecoverTable: the calling goroutine is inside leveldb's recoverTable.
+func inRecoverTable() bool {
+	buf := make([]byte, 16<<10)
+	buf = buf[:runtime.Stack(buf, false)]
+	return bytes.Contains(buf, []byte(".recoverTable"))
+}
+
 func c19Recover(c *Ctx, once *crSigOnce, d *c19DB, img *stor.Stor, cs *c19Case, vers map[string][]*c19Ver, r *rng.R) {
 	part := "A"
 	if vers != nil {
@@ -505,7 +513,9 @@ func c19Recover(c *Ctx, once *crSigOnce, d *c19DB, img *stor.Stor, cs *c19Case, 
 		readFault = nth
 		var seen int32
 		img.SetHooks(func(op stor.Op) stor.FaultMode {
-			if op.Kind == stor.OpRead && op.Fd.Type == storage.TypeTable && atomic.AddInt32(&seen, 1) == nth {
+			// only reads made by Recover's own table scan/rebuild: the DB it returns already runs background
+			// compactions, whose reads must not be disturbed (that would be a fault during normal operation, C08)
+			if op.Kind == stor.OpRead && op.Fd.Type == storage.TypeTable && inRecoverTable() && atomic.AddInt32(&seen, 1) == nth {
 				atomic.StoreInt32(&fired, 1)
 				return stor.FailNoEffect
 			}
